@@ -48,7 +48,7 @@ fn main() {
         let program = Assembler::default().compile(src).unwrap();
         let mk = || { let mut v = ins.clone(); v.reverse(); StackInputs::try_from_values(v).unwrap() };
         let trace = match execute(&program, mk(), DefaultHost::default(), Default::default()) { Ok(t) => t, Err(_) => continue };
-        let all = thorough && (name == "swap-x60" || name == "deep-outputs");
+        let all = name == "swap-x60" || (thorough && name == "deep-outputs");   // every preset (hash function) on at least one program in the quick tier too
         let _ = idx;
         for (pname, mkopt, level) in presets.iter().take(if all { 4 } else { 1 }) {
             total += 1;
